@@ -8,7 +8,7 @@ import z3
 from spec import ops
 from . import source, types as ty
 from .engine import (NS, Exec, Obligation, _Builtin, _FakeSrc, _scalar, as_int, is_z3, lift, sort_of)
-from .values import (ADict, AList, ASet, BoundMethod, BreakSignal, ClassRef, ContinueSignal, Env,
+from .values import (ADict, AList, ASet, BoundMethod, BreakSignal, ClassRef, ContinueSignal, Env, FStr,
                      ModRef, Opaque, OutOfSubset, PathEnd, PyRaise, ReturnSignal, SClosure, SFun,
                      SObj, fresh_name)
 
@@ -702,6 +702,11 @@ class Executor(Exec):
                 return v
             return Opaque("str()")
         if name == "repr":
+            v = args[0]
+            if isinstance(v, (int, str, bool)) or v is None:
+                return repr(v)
+            if isinstance(v, SObj) and not any(source.find_method(c, "__repr__") for c in v._cls_set):
+                return FStr(("<default repr of object>", v._nm), [])  # identity-based
             return Opaque("repr()")
         if name in ("list", "tuple"):
             if not args:
@@ -985,6 +990,9 @@ class Executor(Exec):
                 return None
             if name == "copy":
                 return recv.copy()
+        if isinstance(recv, str) and name == "join" and isinstance(args[0], (list, tuple)) and any(
+                not isinstance(x, str) for x in args[0]):
+            return FStr(("join", recv, len(args[0])) + (None,) * len(args[0]), list(args[0]))
         if isinstance(recv, str):
             if all(isinstance(a, (str, int, tuple)) for a in args) and name in (
                 "startswith", "endswith", "lower", "upper", "strip", "split", "replace", "join", "format", "lstrip", "rstrip", "isdigit"):
